@@ -750,7 +750,7 @@ pub fn partial_json<E: Engine + ?Sized>(e: &E, cfg: &RunCfg, r: &RunResult, repl
         "violations": r.violations.len(),
         "violation_replays": replay_paths,
         "missing_required_classes": missing,
-        "targeted_search": json!({"climbs": r.acc.climbs, "evaluations_in_climbs": r.acc.climb_evals, "best_score_seen": r.acc.best_score, "best_score_case": r.acc.best_case, "score": "observed error divided by the stated bound (1.0 = at the bound); 0 when the property has no score"}),
+        "targeted_search": json!({"climbs": r.acc.climbs, "evaluations_in_climbs": r.acc.climb_evals, "best_score_seen": r.acc.best_score, "best_score_case": r.acc.best_case, "score": "how close the observation is to the stated bound: observed error (C13-C16) or loop-iteration count (C17) divided by the bound; 1.0 = at the bound"}),
         "wall_s": r.wall_s,
     })
 }
